@@ -666,6 +666,46 @@ def run(ctx):
     items = [(kind, c, run_impl(kind, c)) for kind, c in cases]
     answers = ctx.lean([line_of(kind, c) for kind, c, _ in items])
     judge(ctx, items, answers)
+    if not ctx.failures:
+        stream_pb_levels(ctx)
+
+
+def pb_levels_violation(levels):
+    """doe.build_plackett_burman on a dictionary of level lists (2 or more entries each): the design uses only the lowest
+    and the highest entry of every list ("only the two bounds"), with the run count, balance and orthogonality of the
+    statement.  Returns None or a sentence."""
+    from artap import doe
+    names = ["%s%d" % ("wqhdzkbpxm"[j % 10], j) for j in range(len(levels))]      # declaration order, not sorted order
+    d = {nm: list(lv) for nm, lv in zip(names, levels)}
+    try:
+        rows = [tuple(r) for r in doe.build_plackett_burman(d)]
+    except Exception as e:   # noqa
+        return "raises %s: %s" % (type(e).__name__, e)
+    return p_pb([(lv[0], lv[-1]) for lv in levels], rows)
+
+
+def stream_pb_levels(ctx):
+    rng = ctx.rng
+    for _ in range(80 if ctx.quick else 800):
+        n = rng.randint(1, 11)
+        levels = []
+        for j in range(n):
+            k = rng.choice([2, 2, 3, 3, 4, 5])
+            lo = rng.choice([0.0, -1.0, 10.0, rng.uniform(-50, 50)])
+            vals = sorted(set([lo] + [lo + rng.choice([0.5, 1.0, 2.5, 7.0]) * (i + 1) for i in range(k - 1)]))
+            levels.append(vals)
+        ctx.case(("pb-levels", repr(levels)), nontrivial=any(len(lv) > 2 for lv in levels),
+                 sample={"op": "pb-levels", "levels": levels[:4]})
+        ctx.count("pb_level_lists_%s" % ("longer_than_2" if any(len(lv) > 2 for lv in levels) else "pairs"))
+        why = pb_levels_violation(levels)
+        if why:
+            for m in range(1, n + 1):       # fewer factors with the same verdict
+                w2 = pb_levels_violation(levels[:m])
+                if w2:
+                    levels, why = levels[:m], w2
+                    break
+            ctx.fail("pb-levels", "build_plackett_burman on the level lists %r: %s" % (levels, why), {"op": "pb-levels", "levels": levels})
+            return
 
 
 def run_corpus(ctx, case):
@@ -682,7 +722,15 @@ def _restore(c):
     return c
 
 
+def replay_pb_levels(c):
+    why = pb_levels_violation([list(lv) for lv in c["levels"]])
+    print("build_plackett_burman on %r: %s" % (c["levels"], why or "only the lowest and highest level of every factor, balanced and orthogonal"))
+    return why is None
+
+
 def replay(ctx, rp):
+    if rp.get("case", {}).get("op") == "pb-levels":
+        return replay_pb_levels(rp["case"])
     case = rp["case"]
     kind, c = case.get("op"), case.get("case")
     if kind is None or c is None:
